@@ -543,9 +543,9 @@ func (i *Int) Equal(rhs *Int) ct.Bool {
 
 // Compare compares i and rhs and returns (lt, eq, gt) where each is 1 or 0.
 func (i *Int) Compare(rhs *Int) (lt, eq, gt ct.Bool) {
-	// Sign bits (0/1).
-	aNeg := i.IsNegative()
-	bNeg := rhs.IsNegative()
+	// Sign bits (0/1); a zero magnitude carries no sign ("-0" is produced e.g. by Div).
+	aNeg := i.IsNegative() & i.IsNonZero()
+	bNeg := rhs.IsNegative() & rhs.IsNonZero()
 
 	// Magnitude comparison on |i|, |rhs|.
 	var iAbs, rhsAbs Nat
